@@ -355,6 +355,54 @@ theorem verification_flag (a : DocArgs) (d : Doc) (h : buildSR a = .ok d) : d.ve
   obtain ⟨_, _, _, _, _, _, _, hv⟩ := built_fields a d h
   exact hv
 
+/-! ## the root item through write and parse -/
+
+/-- **The parsed root item carries exactly the attributes the given root item carried**, for every admissible root item
+(all mandatory attributes, any subset of template identification / observation date-time / observation UID): the list of
+attributes the parser copies is the one in the source now (`Gen.srParsedRootAttributes`).  Children are content items of
+their own (their round trip is C13's). -/
+theorem root_attributes_roundtrip (present : List String)
+    (hsub : ∀ kw ∈ present, kw ∈ rootItemAttributes.map Prod.fst)
+    (hreq : ∀ kw ∈ rootItemAttributes, kw.2 = false → kw.1 ∈ present) :
+    ∃ l, parseRoot (writeRoot present) = .ok l ∧ ∀ kw, kw ∈ l ↔ kw ∈ present := by
+  have h1 := hreq ("ValueType", false) (by decide) rfl
+  have h2 := hreq ("ConceptNameCodeSequence", false) (by decide) rfl
+  have h3 := hreq ("ContinuityOfContent", false) (by decide) rfl
+  have h4 := hreq ("ContentSequence", false) (by decide) rfl
+  simp only at h1 h2 h3 h4
+  refine ⟨(Gen.srParsedRootAttributes.map Prod.fst).filter (fun kw => present.contains kw), ?_, ?_⟩
+  · simp only [parseRoot, writeRoot, Gen.srParsedRootAttributes, List.foldr_cons, List.foldr_nil, List.map_cons, List.map_nil,
+      List.filter_cons, List.filter_nil]
+    simp only [List.contains_iff_mem, h1, h2, h3, h4, if_true]
+    by_cases a : "ContentTemplateSequence" ∈ present <;> by_cases b : "ObservationDateTime" ∈ present <;>
+      by_cases c : "ObservationUID" ∈ present <;> simp [a, b, c]
+  · intro kw
+    simp only [List.mem_filter, List.contains_iff_mem, decide_eq_true_eq]
+    constructor
+    · exact fun h => h.2
+    · intro h
+      refine ⟨?_, h⟩
+      have := hsub kw h
+      simp only [rootItemAttributes, List.map_cons, List.map_nil, List.mem_cons, List.not_mem_nil, or_false] at this
+      simp only [Gen.srParsedRootAttributes, List.map_cons, List.map_nil, List.mem_cons, List.not_mem_nil, or_false]
+      rcases this with h | h | h | h | h | h | h <;> simp [h]
+
+/-- … and a root item lacking a mandatory attribute is not parsed. -/
+theorem root_missing_mandatory_refused (doc : List String) (kw : String × Bool) (hk : kw ∈ rootItemAttributes) (hm : kw.2 = false)
+    (hmiss : kw.1 ∉ doc) : ∃ e, parseRoot doc = .error e := by
+  simp only [rootItemAttributes, List.mem_cons, List.not_mem_nil, or_false] at hk
+  rcases hk with h | h | h | h | h | h | h <;> subst h <;> simp at hm
+  all_goals
+    simp only [parseRoot, Gen.srParsedRootAttributes, List.foldr_cons, List.foldr_nil, List.contains_iff_mem]
+    simp only at hmiss
+    by_cases a : "ContentTemplateSequence" ∈ doc <;> by_cases b : "ObservationDateTime" ∈ doc <;>
+      by_cases c : "ObservationUID" ∈ doc <;> by_cases d : "ContinuityOfContent" ∈ doc <;>
+      by_cases e : "ValueType" ∈ doc <;> by_cases f : "ContentSequence" ∈ doc <;>
+      by_cases g : "ConceptNameCodeSequence" ∈ doc <;> simp_all
+
+/-- `from_dataset(copy=True)`: the root item is built from the returned copy, never from the caller's data set. -/
+theorem parsed_root_built_from_returned_object : Gen.srParsedRootSource = "sop_instance" := rfl
+
 /-! ## reading the evidence back -/
 
 theorem rows_nodup (a : DocArgs) (d : Doc) (h : buildSR a = .ok d) : (rows d.current ++ rows d.other).Nodup := by
